@@ -61,6 +61,8 @@ var formatTexts = map[string][]string{
 	"byte":      {"aGVsbG8=", "AAEC", "!!", "aGVsbG8", "a", ""},
 	"uuid":      {"a8098c1a-f86e-11da-bd1a-00112444be1e", "A8098C1A-F86E-11DA-BD1A-00112444BE1E", "x", "a8098c1a-f86e-11da-bd1a-00112444be1", "a8098c1a-f86e-11da-bd1a-00112444be1e ", ""},
 	"password":  {"pw", "p w,1", "", "x"},
+	// the application-defined format registered only on the API's registry (see SKU in c03.go)
+	"sku": {"SKU-0002", "SKU-1234", "nope", "SKU-12", "sku-0002", "SKU-00021", "SKU-0002 ", "xSKU-0002", ""},
 }
 
 func isFormat(f string) bool { _, ok := formatTexts[f]; return ok }
@@ -131,6 +133,8 @@ func badText(tpe, format string) string {
 		return "x"
 	case "byte":
 		return "!!"
+	case "sku":
+		return "nope"
 	}
 	return "a,b"
 }
@@ -141,10 +145,10 @@ type kind struct{ T, F string }
 
 var scalarKinds = []kind{{"integer", ""}, {"integer", "int8"}, {"integer", "int16"}, {"integer", "int32"}, {"integer", "int64"},
 	{"number", ""}, {"number", "float"}, {"number", "double"}, {"boolean", ""},
-	{"string", ""}, {"string", "date"}, {"string", "date-time"}, {"string", "byte"}, {"string", "uuid"}, {"string", "password"}, {"string", "foo"}}
+	{"string", ""}, {"string", "date"}, {"string", "date-time"}, {"string", "byte"}, {"string", "uuid"}, {"string", "password"}, {"string", "foo"}, {"string", "sku"}}
 
 var itemKinds = []kind{{"string", ""}, {"integer", "int32"}, {"integer", "int64"}, {"integer", ""}, {"number", "double"}, {"number", "float"}, {"number", ""},
-	{"boolean", ""}, {"string", "date"}, {"string", "uuid"}, {"string", "byte"}}
+	{"boolean", ""}, {"string", "date"}, {"string", "uuid"}, {"string", "byte"}, {"string", "sku"}}
 
 var cfs = []string{"", "csv", "ssv", "tsv", "pipes", "multi"}
 
